@@ -25,10 +25,12 @@ import RoModel.Drivers.MultiB
 import RoModel.Drivers.MultiBC
 import RoModel.Drivers.Share
 import RoModel.Drivers.Race
+import RoModel.Drivers.Kernel
 namespace Ro.Driver
 
 def handlers : List (String × (Case → String)) := [
   ("op", Drivers.Op.run),
+  ("kernel", Drivers.Kernel.run),
   ("chain", Drivers.Chain.runChain),
   ("reuse", Drivers.Chain.runReuse),
   ("reusemulti", Drivers.Chain.runReuseMulti),
